@@ -53,7 +53,11 @@ Marshal ==
 Decode ==
   /\ Ev.action = "decode"
   /\ viol' = viol
-       \cup (IF Ev.result \notin {"ok", "error"} THEN {V("C16", "never_panics", [cls |-> Ev.cls, target |-> Ev.tinfo.k, result |-> Ev.result])} ELSE {})
+       \* calls made at the same time from many tasks: the octets are those of the call made alone, and decode to its value
+       \cup (IF Ev.target = "@hot" /\ Ev.result = "encdiff" THEN {V("C04", "concurrent_calls_agree", [input |-> Ev.input])} ELSE {})
+       \cup (IF Ev.target = "@hot" /\ Ev.result \notin {"ok", "encdiff", "decdiff"} THEN {V("C04", "never_panics", [mode |-> "concurrent", type |-> "schema", kind |-> Ev.result])} ELSE {})
+       \cup (IF Ev.target = "@hot" /\ Ev.result = "decdiff" THEN {V("C05", "round_trip", [mode |-> "concurrent", type |-> "schema", kind |-> "struct"])} ELSE {})
+       \cup (IF Ev.target # "@hot" /\ Ev.result \notin {"ok", "error"} THEN {V("C16", "never_panics", [cls |-> Ev.cls, target |-> Ev.tinfo.k, result |-> Ev.result])} ELSE {})
        \cup (IF Ev.result = "ok" /\ Ev.cls # "deep" /\ MustError(Ev.bytes, Ev.tinfo) THEN {V("C16", "malformed_is_error", [cls |-> Ev.cls, target |-> Ev.tinfo.k, empty |-> Len(Ev.bytes) = 0])} ELSE {})
   /\ div' = div
 Types == Ev.action = "types" /\ UNCHANGED <<viol, div>>
